@@ -39,6 +39,7 @@ type config struct {
 	Rounds     int           `json:"rounds"`
 	Threads    [][]call      `json:"threads"`
 	Clock      string        `json:"clock"`
+	Quiet      bool          `json:"quiet"` // mix: cache wrapper without counters
 	Fault      string        `json:"fault"` // self-test of the cache checker only
 	Cases      []handoffCase `json:"cases"` // mode "handoff"
 }
